@@ -238,6 +238,12 @@ def c15_accept_reject():
     for sn, st, s_send, s_sync, s_cl in SETS:
         fns.append((f"method/clone/{sn}", f"let v: AnyVec<{st}, Heap> = AnyVec::new::<ESS>(); let _c = v.clone();", bool(s_cl)))
         fns.append((f"method/lazy_clone/{sn}", f"use any_vec::any_value::AnyValueCloneable; let v: AnyVec<{st}, Heap> = AnyVec::new::<ESS>(); let e = v.at(0); let _l = e.lazy_clone();", bool(s_cl)))
+        # every handle kind is a lazy-clone source exactly when the vector's constraint set has Cloneable
+        for hn, body in [("at_mut", "let e = v.at_mut(0); let _l = e.lazy_clone();"), ("pop", "let h = v.pop().unwrap(); let _l = h.lazy_clone();"),
+                         ("remove", "let h = v.remove(0); let _l = h.lazy_clone();"), ("swap_remove", "let h = v.swap_remove(0); let _l = h.lazy_clone();"),
+                         ("drained", "let mut d = v.drain(..); let e = d.next().unwrap(); let _l = e.lazy_clone();"),
+                         ("iter-item", "let e = v.iter().next().unwrap(); let _l = e.lazy_clone();"), ("iter_mut-item", "let e = v.iter_mut().next().unwrap(); let _l = e.lazy_clone();")]:
+            fns.append((f"method/lazy_clone({hn})/{sn}", f"use any_vec::any_value::AnyValueCloneable; let mut v: AnyVec<{st}, Heap> = AnyVec::new::<ESS>(); {body}", bool(s_cl)))
         fns.append((f"method/element_clone/{sn}", f"let v: AnyVec<{st}, Heap> = AnyVec::new::<ESS>(); let _f = v.element_clone();", bool(s_cl)))
     # moving / sharing across threads, as programs (not only as trait cells)
     for sn, st, s_send, s_sync, s_cl in SETS:
